@@ -905,8 +905,12 @@ def replay(path):
             print("INCONCLUSIVE property=C20: replay timed out")
             return 2
         if rc != 0:
+            vm = re.search(r"NQV-VIOLATION (\S+)", text)
+            um = re.search(r"NQV-UNDOCUMENTED-EXIT \S+ (\S+)", text)
+            k = "C20/" + vm.group(1) if vm else "C20/sanitizer/%s/exit-status/%s" % (name, um.group(1).replace("status=", "")) if um \
+                else "C20/sanitizer/%s/%s" % (name, hrun.sanitizer_site(text))
             print("VIOLATION property=C20 replay=%s" % path)
-            print("  key=C20/sanitizer/%s/%s (reproduced)" % (name, hrun.sanitizer_site(text)))
+            print("  key=%s (reproduced)" % k)
             return 1
         print("OK property=C20: the recorded input no longer fails on this tree")
         return 0
